@@ -52,19 +52,22 @@ Init == \E s0 \in [Spaces -> {"registered", "ready"}] :
 
 (* ------------------------------ API calls ------------------------------ *)
 \* result of a single-space call
+\* a Plot / Mine on a registered space puts one more request into the channel; a full channel refuses it (with the
+\* pinned code the caller waited for room while holding the state lock: F-C13a, repaired)
+Full(k, w, a) == a \in {"Plot", "Mine"} /\ Known(k, w) /\ k.st[w] = "registered" /\ Len(k.chan) >= ChanCap
 Res(k, w, a) ==
   IF ~Known(k, w) THEN "err"
   ELSE IF a \in {"Remove", "Delete"} /\ ~Still(k, w) THEN "err"
+  ELSE IF Full(k, w, a) THEN "err"
   ELSE "ok"
 
-\* a Plot / Mine on a registered space must put one more request into the channel: with a full channel the caller
-\* blocks (C13); the environment of this specification does not do that
-Blocks(k, w, a) == a \in {"Plot", "Mine"} /\ Known(k, w) /\ k.st[w] = "registered" /\ Len(k.chan) >= ChanCap
+\* (no call blocks any more; kept for the modules that name it)
+Blocks(k, w, a) == FALSE
 
 Purge(k, w) == [k EXCEPT !.chan = WithoutC(@, w), !.queue = WithoutQ(@, w)]
 
 Act(k, w, a) ==
-  IF ~Known(k, w) THEN k
+  IF ~Known(k, w) \/ Full(k, w, a) THEN k
   ELSE CASE a = "Plot" ->
               (CASE k.st[w] = "registered" -> [k EXCEPT !.chan = Append(@, <<w, FALSE>>)]
                  [] Current(k, w) -> [k EXCEPT !.plt.m = FALSE]
@@ -138,7 +141,7 @@ Step3(k) == LET w == k.plt.w IN
 Flagsets == SUBSET States \ {{}}
 
 Next == \/ \E w \in Spaces, a \in Acts : ~Blocks(K, w, a) /\ K' = Act(K, w, a)
-        \/ \E f \in Flagsets, a \in Acts : Len(K.chan) + Len(Matching(K, f)) <= ChanCap /\ K' = Bulk(K, f, a)
+        \/ \E f \in Flagsets, a \in Acts : K' = Bulk(K, f, a)
         \/ ~K.run /\ K' = StartK(K)
         \/ K.run /\ K.plt.pc # "popped" /\ (K' = StopK(K) \/ K' = [StopK(K) EXCEPT !.chan = <<>>])
         \/ CanRecv(K) /\ K' = Recv(K)
